@@ -174,3 +174,39 @@ func skeletonGenFiles() []genFile {
 		})},
 	}
 }
+
+func moreSkeletonGenFiles() []genFile {
+	sel := func(file, recv string, methods ...string) []skelSpec {
+		var out []skelSpec
+		for _, m := range methods {
+			out = append(out, skelSpec{"traversal/selector/" + file, recv + "." + m, "sel_" + recv + "_" + m + "_skel_src", "selector clause method (model: `Sel.interests` / `Sel.explore` / `Sel.matchNode`)"})
+		}
+		return out
+	}
+	var sels []skelSpec
+	sels = append(sels, sel("exploreAll.go", "ExploreAll", "Interests", "Explore", "Decide")...)
+	sels = append(sels, sel("exploreFields.go", "ExploreFields", "Interests", "Explore", "Decide")...)
+	sels = append(sels, sel("exploreIndex.go", "ExploreIndex", "Interests", "Explore", "Decide")...)
+	sels = append(sels, sel("exploreRange.go", "ExploreRange", "Interests", "Explore", "Decide")...)
+	sels = append(sels, sel("exploreRecursiveEdge.go", "ExploreRecursiveEdge", "Interests", "Explore", "Decide")...)
+	sels = append(sels, sel("exploreUnion.go", "ExploreUnion", "Interests", "Explore", "Decide")...)
+	sels = append(sels, sel("exploreRecursive.go", "ExploreRecursive", "Interests", "Explore", "Decide")...)
+	sels = append(sels, sel("matcher.go", "Matcher", "Interests", "Explore", "Decide")...)
+	return []genFile{
+		{"SelectorSkeletons", genSkeletons(sels)},
+		{"PathSkeletons", genSkeletons([]skelSpec{
+			{"datamodel/path.go", "ParsePath", "parsePath_skel_src", "model: `Sel.parsePath`"},
+			{"datamodel/path.go", "Path.String", "pathString_skel_src", "model: `Sel.pathToString`"},
+			{"datamodel/path.go", "Path.AppendSegment", "pathAppendSegment_skel_src", "a fresh slice: paths are values"},
+			{"datamodel/path.go", "Path.Join", "pathJoin_skel_src", "a fresh slice"},
+			{"datamodel/pathSegment.go", "PathSegment.Equals", "segEquals_skel_src", "model: `Seg.equals` (by text, whatever the internal form)"},
+			{"datamodel/pathSegment.go", "PathSegment.Index", "segIndex_skel_src", "model: `Sel.parseIndex`"},
+			{"datamodel/pathSegment.go", "PathSegment.String", "segString_skel_src", "model: `Seg.toString`"},
+		})},
+		{"MemstoreSkeletons", genSkeletons([]skelSpec{
+			{"storage/memstore/memstore.go", "Store.Has", "memHas_skel_src", "model: `Kv` lookup"},
+			{"storage/memstore/memstore.go", "Store.Get", "memGet_skel_src", "model: `Kv` lookup, a copy is handed out"},
+			{"storage/memstore/memstore.go", "Store.Put", "memPut_skel_src", "model: `Kv` insert-if-absent of a copy"},
+		})},
+	}
+}
